@@ -29,6 +29,7 @@ struct Node {
     sockets: SocketSet<'static>,
     kinds: Vec<u32>,
     started: Vec<bool>,
+    npolls: Vec<u32>,
     handles: Vec<smoltcp::iface::SocketHandle>,
 }
 
@@ -52,7 +53,7 @@ fn mk_node(slaac: bool, seed: u64) -> Node {
         SocketStorage::EMPTY,
         SocketStorage::EMPTY,
     ]));
-    Node { iface, dev, sockets: SocketSet::new(&mut storage[..]), kinds: vec![], started: vec![], handles: vec![] }
+    Node { iface, dev, sockets: SocketSet::new(&mut storage[..]), kinds: vec![], started: vec![], npolls: vec![], handles: vec![] }
 }
 
 fn add_sock(n: &mut Node, kind: u32, idx: usize) {
@@ -75,13 +76,30 @@ fn add_sock(n: &mut Node, kind: u32, idx: usize) {
     };
     n.kinds.push(kind);
     n.started.push(false);
+    n.npolls.push(0);
     n.handles.push(h);
     let _ = idx;
 }
 
 /// socket `i` starts its activity (first poll after it was added)
 fn start_sock(n: &mut Node, i: usize) {
+    n.npolls[i] += 1;
     if n.started[i] {
+        // second action on the socket's third poll: sockets with several concurrent timers
+        if n.npolls[i] == 3 {
+            let h = n.handles[i];
+            match n.kinds[i] {
+                1 => {
+                    let s = n.sockets.get_mut::<udp::Socket>(h);
+                    let _ = s.send_slice(b"again", (IpAddress::v4(10, 0, 0, 220 + i as u8), 9));
+                }
+                2 => {
+                    let s = n.sockets.get_mut::<dns::Socket>(h);
+                    let _ = s.start_query(n.iface.context(), "example.org", DnsQueryType::A);
+                }
+                _ => {}
+            }
+        }
         return;
     }
     n.started[i] = true;
@@ -284,6 +302,7 @@ fn run_case(c: &Case, out: &mut dyn Write, record: bool) -> Vec<String> {
                     for _ in 0..idx {
                         s.kinds.push(99);
                         s.started.push(true);
+                        s.npolls.push(1000);
                         s.handles.push(main.handles[0]);
                     }
                     add_sock(&mut s, k, idx);
@@ -303,27 +322,7 @@ fn run_case(c: &Case, out: &mut dyn Write, record: bool) -> Vec<String> {
                         for (r, l, pf) in &p.ras {
                             s.dev.rx.push_back(ra_frame(*r, *l, *pf));
                         }
-                        if !s.started[k] {
-                            // emulate start_sock for the last socket only
-                            s.started[k] = true;
-                            let h = s.handles[k];
-                            match s.kinds[k] {
-                                0 => {
-                                    let so = s.sockets.get_mut::<tcp::Socket>(h);
-                                    let _ = so.connect(s.iface.context(), (IpAddress::v4(10, 0, 0, 2), 80 + k as u16), 40000 + k as u16);
-                                }
-                                1 => {
-                                    let so = s.sockets.get_mut::<udp::Socket>(h);
-                                    let _ = so.bind(5000 + k as u16);
-                                    let _ = so.send_slice(b"hello", (IpAddress::v4(10, 0, 0, 200 + k as u8), 9));
-                                }
-                                2 => {
-                                    let so = s.sockets.get_mut::<dns::Socket>(h);
-                                    let _ = so.start_query(s.iface.context(), "example.com", DnsQueryType::A);
-                                }
-                                _ => {}
-                            }
-                        }
+                        start_sock(s, k);
                         s.iface.poll(now, &mut s.dev, &mut s.sockets);
                         if s.kinds[k] == 3 {
                             let _ = s.sockets.get_mut::<dhcpv4::Socket>(s.handles[k]).poll();
